@@ -36,6 +36,9 @@ CASE_TIMEOUT = {'quick': 180, 'thorough': 600}
 EXAMPLES = ['Net1.inp', 'Net2.inp', 'Net3.inp', 'Net6.inp', 'ky10.inp', 'ky4.inp']
 
 
+# appended to RULE in the evidence (vlib/runner.py)
+RULE_ADDENDUM = 'Added in round 4: leaks removed again before the model is saved (G-model).'
+
 def n_cases(tier):
     return 320 if tier == 'quick' else 5000
 
